@@ -377,14 +377,21 @@ func (s *pState) flush(cw *cwriter.Writer, height int, iter <-chan *Bar) error {
 	// cycle's width sync or iteration.
 	var pending []pushData
 
+	var err error
 	for b := range iter {
 		frame := <-b.frameCh
 		verifPoint("flush.bar", frame.shutdown, b)
+		if err != nil {
+			// A bar has failed: nothing is going to be drawn, but every bar of this
+			// cycle is still rendering and its width-synchronised decorators wait
+			// for each other. Let them all finish instead of dropping the cycle.
+			pending = append(pending, pushData{b, false})
+			continue
+		}
 		if frame.err != nil {
-			close(s.iterDrop)
 			b.cancel()
-			s.pushPending(pending)
-			return frame.err // b.frameCh is buffered it's ok to return here
+			err = frame.err
+			continue
 		}
 		var usedRows int
 		for i := len(frame.rows) - 1; i >= 0; i-- {
@@ -422,6 +429,9 @@ func (s *pState) flush(cw *cwriter.Writer, height int, iter <-chan *Bar) error {
 	}
 
 	s.pushPending(pending)
+	if err != nil {
+		return err
+	}
 
 	for i := len(rows) - 1; i >= 0; i-- {
 		_, err := cw.ReadFrom(rows[i])
